@@ -194,7 +194,11 @@ func (w *World) structSortOf(key string, st *types.Struct) Sort {
 	w.structSorts[name] = ss // register first (recursion through pointers yields Ref anyway)
 	for i := 0; i < st.NumFields(); i++ {
 		f := st.Field(i)
-		ss.Fields = append(ss.Fields, name+"_"+sanitize(f.Name()))
+		fn := name + "_" + sanitize(f.Name())
+		if f.Name() == "_" {
+			fn = fmt.Sprintf("%s_blank%d", name, i)
+		}
+		ss.Fields = append(ss.Fields, fn)
 		ss.Sorts = append(ss.Sorts, w.sortOf(f.Type()))
 	}
 	w.structOrder = append(w.structOrder, name)
@@ -245,7 +249,7 @@ func (w *World) zeroSort(s Sort) string {
 		return "0.0"
 	case strings.HasPrefix(s, "(Slc "):
 		e := s[5 : len(s)-1]
-		return "(mk_slc ((as const (Array Int " + e + ")) " + w.zeroSort(e) + ") 0)"
+		return "((as mk_slc (Slc " + e + ")) ((as const (Array Int " + e + ")) " + w.zeroSort(e) + ") 0)"
 	case strings.HasPrefix(s, "(Array Int "):
 		e := s[len("(Array Int ") : len(s)-1]
 		return "((as const " + s + ") " + w.zeroSort(e) + ")"
